@@ -177,7 +177,7 @@ def alpha_of(key, T):
 # ---------------------------------------------------------------------------
 # case generators
 # ---------------------------------------------------------------------------
-def gen_case(rng, ndim, mat, nsteps=None, uniform=False, big=False):
+def gen_case(rng, ndim, mat, nsteps=None, uniform=False, big=False, tiny=False):
     """random tube + temperature/pressure/displacement history.
     The two inner node rings keep their temperature for the first steps (zero-if-unchanged),
     and the whole first step of some histories changes nothing."""
@@ -208,6 +208,11 @@ def gen_case(rng, ndim, mat, nsteps=None, uniform=False, big=False):
     if uniform:
         lvl = [Tbase] + [Tbase + span * rng.uniform(0.1, 1.0) for _ in range(n)]
         T = np.array([np.full((nr, nt, nz), lv) for lv in lvl])
+    if tiny:
+        # a slow ramp stored with very fine time stepping: every node changes by 0.2e-5 .. 0.8e-5 of its
+        # temperature per stored step (a few mK) -- small changes are changes
+        rate = np.array([[[rng.uniform(2e-6, 8e-6) for _ in range(nz)] for _ in range(nt)] for _ in range(nr)])
+        T = np.array([Tbase * (1.0 + k * rate) for k in range(n + 1)])
     p = [0.0] + [rng.uniform(0.0, 8.0) for _ in range(n)]
     a = alpha_of(mat, Tbase + span / 2)
     d = [h * (a * float(np.mean(T[k + 1]) - float(np.mean(T[0]))) + rng.uniform(-2e-4, 2e-4)) for k in range(n)]
@@ -697,6 +702,9 @@ def run(ctx):
                 # the same with forced sub-division: partition etc. for every step sub-division
                 if ndim < 3 or not quick:
                     explore("book", dict(case, solver={"max_divide": 2, "force_divide": True}), "book-divided/%dD/%s" % (ndim, mat))
+        # slow ramp in many tiny stored steps (mK per step)
+        for mat in ("Econst",) if quick else ("Econst", "316H/elastic_model"):
+            explore("book", gen_case(rng, ndim, mat, nsteps=6, tiny=True), "book-tiny-steps/%dD/%s" % (ndim, mat))
         # per-step API from a fresh state created without a time index (as the upstream tests drive it)
         explore("direct", gen_case(rng, ndim, "Econst"), "direct/%dD/Econst" % ndim)
         # free expansion
